@@ -325,6 +325,7 @@ package resolve
 //@ decl stableelems *Field
 //@ decl stable Resolvable.typeNameStats by Resolvable.initCostControl, Resolvable.Reset, NewResolvable
 //@ decl stable Resolvable.options by NewResolvable
+//@ decl stable Resolvable.renameTypeNames by Resolvable.Init, Resolvable.InitSubscription, Resolvable.Reset
 
 //@ spec isFieldValue(n Node) bool
 
@@ -479,6 +480,8 @@ package resolve
 //@   ensures {right.kind.accepted} !isnull && kindok ==> !result
 //@   ensures {mode.unchanged} modeSame(r)
 //@   ensures {stack.restored} len(r.path) == old(len(r.path))
+//@   assumes !raw(arr(quote)) && (forall k in 0..len(r.renameTypeNames) :: !raw(arr(r.renameTypeNames[k].To)))
+//@   at call Resolvable.printBytes: assert {unescaped.string.content.is.never.printed.raw} !raw(arr(arg1))
 //@   modifies *, count(*)
 
 //@ func Resolvable.walkBoolean
